@@ -474,7 +474,8 @@ def onObs (t : T) (x : Obs) : T :=
           else t) t
         -- C02: whoever had a pending cause when the wait began was called back
         t.srcs.foldl (fun (t : T) ((j, a) : Nat × ASrc) =>
-          if a.dueAtBegin && !a.touched && a.cbThisDispatch == 0 then
+          -- (a source whose (un)registration failed half-way during this dispatch is not judged any more)
+          if a.dueAtBegin && !a.touched && !a.unknown && a.cbThisDispatch == 0 then
             (t.flag .C02 s!"source {j} had a pending cause when the dispatch began and was not called back").disturbed j
               s!"source {j} had a pending cause when the dispatch began and was not called back"
           else t) t
@@ -493,6 +494,11 @@ def onObs (t : T) (x : Obs) : T :=
                   s.pend != b.pend || s.synth != b.synth) .C15
           s!"failed insertion of source {k} changed the loop's bookkeeping"
       | _, _ => t
+    -- C09 / C07: between operations nothing is deferred (Verif.Props.C09.pending_clear_after_every_history)
+    let t := if s.pend != .Continue then
+        (t.flag .C09 s!"pending_action is {repr s.pend} between two operations: a deferred post action outlived the event it was requested in").flag
+          .C07 s!"pending_action is {repr s.pend} between two operations: a deferred disable/update is waiting for some other source's event"
+      else t
     { t with lastSt := some s, insFailed := none }
   | .ep es =>
     if t.regFailed then t else
